@@ -73,6 +73,7 @@ func dev(args []string) {
 	}
 	fmt.Printf("loaded in %.1fs, %d contract blocks\n", time.Since(t0).Seconds(), len(w.Contracts))
 	opts := &vc.SolveOpts{TimeoutS: *timeout, TmpDir: os.TempDir() + "/ionvc-dev", Sem: make(chan struct{}, 16)}
+	opts.SlowHints = vc.LoadSlowHints("/verif/slow_hints.json")
 	sel := strings.Split(*fn, ",")
 	tot, okc := 0, 0
 	for _, c := range w.Contracts {
